@@ -140,7 +140,7 @@ package index
 //@   preserves idx
 //@   requires @D1-primary-first !idx.Primary.$pending || idx.Primary.$failed
 //@   local requires @record-size-limit forall b BucketIndex :: (b in idx.nextPool) ==> len(idx.nextPool[b]) < (1 << 31) - 8
-//@   modifies fp(FC), idx.gcStop, chan(idx.gcStop), chan(idx.gcDone), idx.curPool, idx.nextPool, idx.outstandingWork, idx.file, idx.fileNum, idx.length, elems(idx.buckets), idx.$pending, idx.$closed
+//@   modifies fp(FC), idx.gcStop, chan(idx.gcStop), chan(idx.gcDone), idx.curPool, idx.nextPool, idx.outstandingWork, idx.file, idx.fileNum, idx.length, elems(idx.buckets), idx.$pending, idx.$closed, once(idx.closeOnce)
 //@   ghost at return: idx.$closed = idx.$closed || (!idx.file.$open && idx.gcStop == nil)
 //@   ghost var gflusherr bool = true
 //@   ghost var gcloseerr bool = true
